@@ -1610,7 +1610,7 @@ REQUIRED_CLASSES = [
     ("shape:delta:copy-size=0x10000", "copy op of 65536 bytes"),
     ("shape:W.seq:kinds=full+ofs", "dulwich wrote OFS deltas"),
     ("shape:W.seq:kinds=full+ref", "dulwich wrote REF deltas (delta before its base)"),
-    ("shape:W.reuse:max-depth=2", "dulwich reused a delta of a delta"),
+    ("shape:W.reuse:max-depth=1", "dulwich reused a delta"),
     ("shape:G.chain:max-depth=49", "git chain of depth ~50"),
     ("shape:idx-v2:64-bit-table", "git idx with 64-bit entries read by dulwich"),
     ("I:write-v2:64-bit-table-entries=2", "dulwich idx with two 64-bit entries"),
@@ -1696,7 +1696,10 @@ def run(ctx):
     pmap_acc(work, tasks, ctx.acc, jobs=ctx.jobs)
 
     acc = ctx.acc
-    missing = [(c, why) for c, why in REQUIRED_CLASSES if c not in acc.classes]
+    required = REQUIRED_CLASSES + ([] if q else [("shape:W.reuse:max-depth=2", "dulwich reused a delta of a delta"),
+                                                 ("I:write-v2:64-bit-table-entries=3", "dulwich idx with three 64-bit entries"),
+                                                 ("shape:R:max-depth=3", "reference-built chain of depth 3")])
+    missing = [(c, why) for c, why in required if c not in acc.classes]
     if missing:
         raise HarnessError("vacuity guard: classes never observed: %r" % (missing,))
     n = acc.n
